@@ -287,7 +287,7 @@ pub open spec fn tok_is(i: AssetInfo, who: Seq<char>) -> bool { i matches AssetI
                 let pi = old(deps.storage).pair_info->Some_0;
                 exists|i0: AssetInfo, i1: AssetInfo| #![trigger raw_of(i0, pi.asset_infos[0]), raw_of(i1, pi.asset_infos[1])] raw_of(i0, pi.asset_infos[0]) && raw_of(i1, pi.asset_infos[1])
                     && swap_guarded(deps.querier.world(), env.contract.address.0@, i0, i1, pi.asset_decimals, old(deps.storage).commission->Some_0.0.v(), offer_asset, belief_price, max_spread) })),
-        /*[C17 exec.update-decimals.applies]*/ msg matches ExecuteMsg::UpdateNativeTokenDecimals { denom, asset_decimals } ==> r is Ok ==> old(deps.storage).pair_info is Some && final(deps.storage).pair_info is Some && ({
+        /*[C17,C10 exec.update-decimals.applies]*/ msg matches ExecuteMsg::UpdateNativeTokenDecimals { denom, asset_decimals } ==> r is Ok ==> old(deps.storage).pair_info is Some && final(deps.storage).pair_info is Some && ({
             let o = old(deps.storage).pair_info->Some_0; let n = final(deps.storage).pair_info->Some_0;
             n.asset_infos == o.asset_infos && n.contract_addr == o.contract_addr && n.liquidity_token == o.liquidity_token
             && n.requirements == o.requirements && n.commission_rate == o.commission_rate
@@ -303,7 +303,7 @@ pub open spec fn raw_is_native(a: AssetInfoRaw, denom: Seq<char>) -> bool { a ma
     ensures
         /*[C14,C17 upd.only-factory]*/ r is Ok ==> old(deps.storage).config is Some && info.sender.0@ == old(deps.storage).config->Some_0.halo_factory.0@,
         /*[C14 upd.reject-no-write]*/ r is Err ==> *final(deps.storage) == *old(deps.storage),
-        /*[C17 upd.applies]*/ r is Ok ==> old(deps.storage).pair_info is Some && final(deps.storage).pair_info is Some && ({
+        /*[C17,C10 upd.applies]*/ r is Ok ==> old(deps.storage).pair_info is Some && final(deps.storage).pair_info is Some && ({
             let o = old(deps.storage).pair_info->Some_0; let n = final(deps.storage).pair_info->Some_0;
             n.asset_infos == o.asset_infos && n.contract_addr == o.contract_addr && n.liquidity_token == o.liquidity_token
             && n.requirements == o.requirements && n.commission_rate == o.commission_rate
@@ -378,7 +378,7 @@ use tokenmsg::InstantiateMsg as TokenInstantiateMsg;
 //%%sig
     ensures
         /*[C14,C17 init.factory-is-creator]*/ r is Ok ==> final(deps.storage).config is Some && final(deps.storage).config->Some_0.halo_factory.0@ == info.sender.0@,
-        /*[C16,C17 init.stores-what-it-was-told]*/ r is Ok ==> final(deps.storage).pair_info is Some && ({ let p = final(deps.storage).pair_info->Some_0;
+        /*[C16,C17,C05,C10 init.stores-what-it-was-told]*/ r is Ok ==> final(deps.storage).pair_info is Some && ({ let p = final(deps.storage).pair_info->Some_0;
             raw_of(msg.asset_infos[0], p.asset_infos[0]) && raw_of(msg.asset_infos[1], p.asset_infos[1]) && p.asset_decimals == msg.asset_decimals
             && p.requirements == msg.requirements && p.commission_rate == msg.commission_rate && p.contract_addr.0@ == canon_of(env.contract.address.0@) })
             && final(deps.storage).commission == Some(msg.commission_rate),
